@@ -579,7 +579,7 @@ class ExploreResult:
 
 
 def _explore_subtree(scenario, params, harness, seed, prefix, fixed, deadline, max_paths, validate_every,
-                     frontier=None, classify=None):
+                     frontier=None, classify=None, resume=False):
     eng = Engine(seed)
     eng.prefix = [list(p) for p in prefix]
     eng.fixed = fixed
@@ -588,10 +588,14 @@ def _explore_subtree(scenario, params, harness, seed, prefix, fixed, deadline, m
     jobs = []
     proxies._ENGINE[0] = eng
     rnd = random.Random(seed)
+    leftover = None
     try:
+        if resume and not eng.backtrack():
+            return res, jobs, None
         while True:
             if (deadline is not None and time.time() > deadline) or (max_paths and res.paths >= max_paths):
                 res.exhaustive = False
+                leftover = ([list(p) for p in eng.prefix], eng.fixed, False)
                 break
             src = SymSrc(eng)
             eng.begin_path()
@@ -666,7 +670,7 @@ def _explore_subtree(scenario, params, harness, seed, prefix, fixed, deadline, m
     res.decisions = eng.decisions
     res.checks, res.sat, res.unsat, res.unknown = eng.checks, eng.sat, eng.unsat, eng.unknown
     res.solver_s = eng.solver_s
-    return res, jobs
+    return res, jobs, leftover
 
 
 def _norm(obs):
@@ -678,14 +682,15 @@ _JOB_CTX = {}
 
 def _worker(i):
     c = _JOB_CTX
-    prefix = c['jobs'][i]
+    prefix, fixed, resume = c['jobs'][i]
     deadline = c['deadline']
     if deadline is not None:
-        # time slicing: a sub-tree may not use more than its share, so that a budgeted run samples all of them
+        # time slicing: a sub-tree may not use more than its share in one round, so that a budgeted run samples
+        # all of them; unfinished sub-trees are handed back and resumed while time remains
         deadline = min(deadline, time.time() + c['slice'])
-    res, _ = _explore_subtree(c['scenario'], c['params'], c['harness'], c['seed'] + i + 1, prefix, len(prefix),
-                              deadline, c['max_paths'], c['validate_every'], None, c['classify'])
-    return res
+    res, _, left = _explore_subtree(c['scenario'], c['params'], c['harness'], c['seed'] + i + 1, prefix, fixed,
+                                    deadline, c['max_paths'], c['validate_every'], None, c['classify'], resume)
+    return res, left
 
 
 def explore(scenario, params=None, harness='h', seed=0, timeout=None, max_paths=None, workers=None,
@@ -697,30 +702,45 @@ def explore(scenario, params=None, harness='h', seed=0, timeout=None, max_paths=
     workers = workers if workers is not None else min(16, os.cpu_count() or 1)
     total = ExploreResult()
     if workers <= 1:
-        res, _ = _explore_subtree(scenario, params, harness, seed, [], 0, deadline, max_paths, validate_every,
-                                  None, classify)
+        res, _, left = _explore_subtree(scenario, params, harness, seed, [], 0, deadline, max_paths, validate_every,
+                                        None, classify)
         total.merge(res)
         total.wall_s = time.time() - t0
         return total
     # parent: expand the decision tree to a frontier, then distribute the sub-trees
     depth = 5
     while True:
-        res, jobs = _explore_subtree(scenario, params, harness, seed, [], 0, deadline, max_paths, validate_every,
-                                     depth, classify)
+        res, jobs, left = _explore_subtree(scenario, params, harness, seed, [], 0, deadline, max_paths,
+                                           validate_every, depth, classify)
         if not jobs or len(jobs) >= 20 * workers or depth >= 20 or not res.exhaustive:
             break
         depth += 3
     total.merge(res)
     if jobs and res.exhaustive:
         random.Random(seed).shuffle(jobs)
-        _JOB_CTX.update(scenario=scenario, params=params, harness=harness, seed=seed, jobs=jobs, deadline=deadline,
-                        max_paths=(max_paths // len(jobs) + 1) if max_paths else None,
-                        validate_every=validate_every, classify=classify,
-                        slice=(max(1.0, (deadline - time.time()) * min(workers, len(jobs)) / len(jobs) * 1.5)
-                               if deadline else None))
+        pending = [(j, len(j), False) for j in jobs]
         ctx = multiprocessing.get_context('fork')
-        with ctx.Pool(min(workers, len(jobs))) as pool:
-            for r in pool.imap_unordered(_worker, range(len(jobs)), chunksize=1):
-                total.merge(r)
+        while pending:
+            if deadline is not None and time.time() >= deadline:
+                total.exhaustive = False
+                break
+            nw = min(workers, len(pending))
+            _JOB_CTX.update(scenario=scenario, params=params, harness=harness, seed=seed, jobs=pending,
+                            deadline=deadline, max_paths=(max_paths // len(jobs) + 1) if max_paths else None,
+                            validate_every=validate_every, classify=classify,
+                            slice=(max(2.0, (deadline - time.time()) * nw / len(pending) * 0.6)
+                                   if deadline else None))
+            leftovers = []
+            with ctx.Pool(nw) as pool:
+                for r, left in pool.imap_unordered(_worker, range(len(pending)), chunksize=1):
+                    ex = r.exhaustive
+                    r.exhaustive = True
+                    total.merge(r)
+                    if not ex:
+                        if left is not None and not max_paths:
+                            leftovers.append(left)
+                        else:
+                            total.exhaustive = False
+            pending = leftovers
     total.wall_s = time.time() - t0
     return total
